@@ -31,9 +31,25 @@ type world struct {
 }
 
 func newWorld(t *testing.T, env *vkit.Env, rec *vkit.Rec, redis bool) *world {
+	return newWorldOpts(t, env, rec, sim.BootOpts{Redis: redis})
+}
+
+func newWorldOpts(t *testing.T, env *vkit.Env, rec *vkit.Rec, o sim.BootOpts) *world {
 	b := sim.NewBoundary()
-	cl := sim.Boot(t, b, sim.BootOpts{Redis: redis}, nil)
+	cl := sim.Boot(t, b, o, nil)
 	return &world{t: t, env: env, rec: rec, b: b, cl: cl, model: sim.NewModel()}
+}
+
+// withSlots gives the create / realloc operations of a scenario a request to the second plugin (plugin layer).
+func withSlots(r *rand.Rand, ops ...*sim.Op) {
+	for _, op := range ops {
+		switch op.Kind {
+		case "create":
+			op.Res.Slots = int64(r.Intn(4))
+		case "realloc":
+			op.Res.Slots = int64(r.Intn(5) - 2)
+		}
+	}
 }
 
 // rebuild wipes all state and installs topo, then runs the setup operations without faults.
@@ -107,6 +123,7 @@ type histCase struct {
 	Saturate []bool         `json:"saturate_pool_pattern,omitempty"` // C20 small-pool batches: which realloc / set-node ops run under a saturated pool
 	FailedAt int            `json:"failed_at_op"`
 	Events   []string       `json:"events_of_failing_op,omitempty"`
+	PluginLayer bool        `json:"plugin_layer,omitempty"` // decorated plugins + second plugin (sim.BootOpts.PluginLayer)
 }
 
 func eventsBrief(evs []sim.Event) []string {
@@ -136,9 +153,19 @@ func TestC10(t *testing.T) {
 	env := vkit.Load("C10")
 	rec := vkit.NewRec(env)
 	defer rec.Finish()
-	w := newWorld(t, env, rec, false)
+	// odd batches: plugin layer (decorated plugins as fault positions, a second plugin, requests to it)
+	pluginLayer := env.Batch%2 == 1
+	var replayed histCase
+	if env.Replay != "" {
+		if err := vkit.ReadReplay(env.Replay, &replayed); err != nil {
+			t.Fatal(err)
+		}
+		pluginLayer = replayed.PluginLayer
+	}
+	w := newWorldOpts(t, env, rec, sim.BootOpts{PluginLayer: pluginLayer})
 	ctx := context.Background()
 	r := env.Rand("c10")
+	rs := env.Rand("c10-slots")
 
 	judge := func(hc *histCase, opKind, fault string, seq0 int64) bool {
 		snap := w.cl.Snapshot(ctx)
@@ -238,13 +265,15 @@ func TestC10(t *testing.T) {
 		label := "contended:" + strings.Join(kinds, "+")
 		if has("replace") && (has("remove") || has("dissociate")) {
 			label = "contended:replace||remove-or-dissociate"
+		} else if has("replace") && has("realloc") {
+			label = "contended:replace||realloc"
 		}
 		return judge(hc, label, "no-fault", seq0)
 	}
 
 	runHistory := func(mode string, nops int) {
 		topo := sim.GenTopology(r, true)
-		hc := &histCase{Topology: topo, Mode: mode}
+		hc := &histCase{Topology: topo, Mode: mode, PluginLayer: pluginLayer}
 		if err := w.rebuild(topo, nil); err != nil {
 			rec.Inconclusive("rebuild failed: %v", err)
 			return
@@ -259,6 +288,12 @@ func TestC10(t *testing.T) {
 				var plan *sim.FaultPlan
 				if mode == "single-fault" && r.Intn(2) == 0 {
 					plan = &sim.FaultPlan{Kind: "fail", Index: 1 + r.Intn(24)}
+				}
+				if pluginLayer {
+					withSlots(rs, &op)
+					if plan != nil { // operations make about twice as many boundary calls with the plugin layer
+						plan.Index = 1 + rs.Intn(56)
+					}
 				}
 				hc.Ops = append(hc.Ops, op)
 				hc.Faults = append(hc.Faults, plan)
@@ -323,6 +358,11 @@ func TestC10(t *testing.T) {
 						} else {
 							seen[ops[j].IDs[0]] = true
 						}
+					}
+				}
+				if pluginLayer {
+					for j := range ops {
+						withSlots(rs, &ops[j])
 					}
 				}
 				var maxInflight int64
@@ -395,11 +435,7 @@ func TestC10(t *testing.T) {
 	}
 
 	if env.Replay != "" {
-		var hc histCase
-		if err := vkit.ReadReplay(env.Replay, &hc); err != nil {
-			t.Fatal(err)
-		}
-		replayHistory(w, rec, &hc)
+		replayHistory(w, rec, &replayed)
 		return
 	}
 	nh := env.Pick(36, 600) / env.NBatch
@@ -528,8 +564,11 @@ func TestC11(t *testing.T) {
 	env := vkit.Load("C11")
 	rec := vkit.NewRec(env)
 	defer rec.Finish()
-	w := newWorld(t, env, rec, false)
+	// plugin layer: every plugin call inside the resource manager is a fault position of its own, and a second
+	// plugin makes cobalt's partial commits (one plugin wrote, the other failed) and their internal rollbacks run
+	w := newWorldOpts(t, env, rec, sim.BootOpts{PluginLayer: true})
 	ctx := context.Background()
+	rs := env.Rand("c11-slots")
 
 	runOne := func(topo *sim.Topology, setup []sim.Op, op sim.Op, k int) (fired bool) {
 		if err := w.rebuild(topo, setup); err != nil {
@@ -552,6 +591,11 @@ func TestC11(t *testing.T) {
 		site := faultName(plan)
 		rec.SetAdd("fault_positions/"+op.Kind, fmt.Sprintf("%s#%d", site, k))
 		rec.Count("faults_fired/"+op.Kind, 1)
+		if i := strings.Index(site, "@"); i >= 0 {
+			if j := strings.Index(site[i:], "."); j > 0 {
+				rec.Count("faults_fired_at_layer/"+site[i+1:i+j], 1)
+			}
+		}
 		if res.TimedOut {
 			rec.Skip("operation stream did not close (reported under C12)")
 			return true
@@ -631,7 +675,11 @@ func TestC11(t *testing.T) {
 	for _, kind := range kinds {
 		for s := 0; s < scen; s++ {
 			topo, setup, op := c11Scenario(r, kind)
-			for k := 1; k <= 80; k++ {
+			for i := range setup {
+				withSlots(rs, &setup[i])
+			}
+			withSlots(rs, &op)
+			for k := 1; k <= 200; k++ {
 				if !runOne(topo, setup, op, k) {
 					break
 				}
